@@ -82,7 +82,26 @@ class FakeTLSSocket(object):
     RECORD_MAX = 16384
 
     def recv(self, bufsize):
-        if not self.script.get('records'):
+        lens = self.script.get('record_lens')
+        if lens:
+            # the harness has said where the peer's next TLS record ends: a record is handed over only when all of it
+            # has arrived; until then a read takes the piece off the TCP socket (the readiness notification has fired
+            # for it) and reports SSLWantReadError, as OpenSSL does for a record that is still incomplete
+            part = self.__dict__.setdefault('_part', bytearray())
+            piece = self.raw.recv(lens[0] - len(part))
+            if not piece:
+                return piece
+            part += piece
+            if len(part) < lens[0]:
+                raise ssl.SSLWantReadError(2, 'The operation did not complete (read)')
+            lens.pop(0)
+            held = self.__dict__.setdefault('_held', bytearray())
+            held += part
+            del part[:]
+            out = bytes(held[:bufsize])
+            del held[:len(out)]
+            return out
+        if not self.script.get('records') and not self.__dict__.get('_held'):
             return self.raw.recv(bufsize)
         held = self.__dict__.setdefault('_held', bytearray())
         if not held:
